@@ -79,6 +79,21 @@ class StepBudget(BaseException):
     case is recorded as skipped, not as a violation"""
 
 
+def shape(a):
+    """which fields of a value are present: 'T:ymdhM' / 'T:DP' / 'I[T:hM|T:hM]' / 'D:days' / 'R'"""
+    n = type(a).__name__
+    if n == "Time":
+        return "T:" + "".join(c for c, f in (("y", "year"), ("m", "month"), ("d", "day"), ("h", "hour"), ("M", "minute"), ("D", "DOW"), ("P", "POD"))
+                              if getattr(a, f, None) is not None)
+    if n == "Interval":
+        return "I[%s|%s]" % (shape(a.t_from) if a.t_from is not None else "-", shape(a.t_to) if a.t_to is not None else "-")
+    if n == "Duration":
+        return "D:%s" % getattr(getattr(a, "unit", None), "name", "?")
+    if n == "RegexMatch":
+        return "R"
+    return n
+
+
 class Monitors:
     """The set of monitors a worker installs once; cheap enough to stay on for
     every case. Per-case state is reset by ``begin()``."""
@@ -105,6 +120,9 @@ class Monitors:
         self.track_prov = False          # provenance: id(artifact) -> set of (mstart, mend, pattern id) it was built from
         self.prov = {}
         self.prov_keep = []
+        self.track_feat = False          # rule-application signatures (producer rules and value shapes of the arguments)
+        self.feats = set()
+        self.producer = {}
         self._orig_registry = {}
         self._install()
 
@@ -175,6 +193,8 @@ class Monitors:
             if mon.track_prov and res is not art:
                 mon.prov[id(res)] = mon.prov.get(id(art), set())
                 mon.prov_keep.append(res)
+            if mon.track_feat:
+                mon.feats.add("latent(%s)->%s" % (shape(art), shape(res)))
             return res
 
         if orig_post is not None:
@@ -205,6 +225,11 @@ class Monitors:
             if res is not None:
                 mon.rule_fired[name] += 1
                 mon.case_rules[name] += 1
+                if mon.track_feat:
+                    mon.feats.add("%s<%s>" % (name, ",".join("R" if type(a).__name__ == "RegexMatch" else mon.producer.get(id(a), "?") for a in args)))
+                    mon.feats.add("%s(%s)->%s" % (name, ",".join(shape(a) for a in args), shape(res)))
+                    mon.producer[id(res)] = name
+                    mon.prov_keep.append(res)
                 if mon.track_prov:
                     pv = set()
                     for a in args:
@@ -243,6 +268,8 @@ class Monitors:
         self.snap_breaches = []
         self.prov = {}
         self.prov_keep = []
+        self.feats = set()
+        self.producer = {}
 
 
 class FixedNow:
